@@ -459,8 +459,8 @@ def grab_packed(out, name):
     if not m:
         return None
     res = []
-    for i, ln, body in re.findall(r"\((\d+),\s*\((\d+),\s*\[([^\]]*)\](?:%uint63)?\s*\)\s*\)", m.group(1)):
-        res.append((int(i), unpack(int(ln), [int(x) for x in re.findall(r"\d+", body)])))
+    for i, ln, body in re.findall(r"\(\s*(\d+)\s*,\s*\(\s*(\d+)\s*,\s*\[([^\]]*)\]\s*\)\s*\)", m.group(1)):
+        res.append((int(i), unpack(int(ln), [int(x) for x in re.findall(r"\d+", body.replace("%uint63", ""))])))
     return res
 
 
@@ -468,7 +468,7 @@ def grab_pairs(out, name):
     m = re.search(r"\b" + name + r"\s*=\s*(.*?)\n\s*:", out, flags=re.S)
     if not m:
         return None
-    return [(int(a), int(b)) for a, b in re.findall(r"\((\d+),\s*(\d+)\)", m.group(1))]
+    return [(int(a), int(b)) for a, b in re.findall(r"\(\s*(\d+)\s*,\s*(\d+)\s*\)", m.group(1))]
 
 
 def evaluate(c, binary, cases, tag):
@@ -518,7 +518,8 @@ Definition mbad_signs := Eval vm_compute in bad_pairs c15_sign_pair_mon (map (fu
 Definition mbad_pks := Eval vm_compute in bad_pairs c15_pubkeys_pair_mon (map (fun c => let '(i,g,k,_) := c in (i,g,k,r2o (ser_pubkeys k))) pks).
 Definition mbad_vps := Eval vm_compute in bad_pairs c15_votepowers_pair_mon (map (fun c => let '(i,g,p,_) := c in (i,g,p,r2o (ser_votepowers p))) vps).
 Definition equiv_pairs := Eval vm_compute in
-  (length (bad_pairs (fun a _ b _ => negb (hdr_equivb a b)) blocks), length (bad_pairs (fun a _ b _ => negb (sign_target_eqb a b)) signs)).
+  (N.of_nat (length (bad_pairs (fun a _ b _ => negb (hdr_equivb a b)) blocks)),
+   N.of_nat (length (bad_pairs (fun a _ b _ => negb (sign_target_eqb a b)) signs))).
 Print m_blocks. Print m_signs. Print m_pks. Print m_vps.
 Print bad_blocks. Print bad_signs. Print bad_pks. Print bad_vps.
 Print mbad_blocks. Print mbad_signs. Print mbad_pks. Print mbad_vps.
